@@ -11,8 +11,11 @@
 (*                                                                         *)
 (* A docstring is a sequence of section headings; a heading is a sequence  *)
 (* of word tokens ("a" = a long phrase, "b" = a short word, "1" = the      *)
-(* number 1), so that the heading <<"a","1">> has the same slug as the     *)
-(* first de-duplication candidate of the heading <<"a">>.  slugify is the  *)
+(* number 1, "j" = a word without any ASCII letter - Japanese, Greek,      *)
+(* punctuation - of which slugify keeps nothing), so that the heading      *)
+(* <<"a","1">> has the same slug as the first de-duplication candidate of  *)
+(* the heading <<"a">>, and the heading <<"j">> has the EMPTY slug (its    *)
+(* candidates are "-1", "-2", ..: the dash survives).  slugify is the      *)
 (* environment: the identity on token sequences, cut after Cap tokens      *)
 (* (Cap = 0: never cut - the tree as it is).  The termination argument is  *)
 (* the invariant Variant: the candidates for i = 1, 2, .. are pairwise     *)
@@ -30,12 +33,14 @@ CONSTANTS MaxSections,   \* sections per docstring
           Bound          \* exploration bound on i (only reached when the loop does not terminate)
 
 SeqsUpTo(S, n) == UNION {[1..m -> S] : m \in 1..n}
-Headings == {h \in SeqsUpTo({"a", "1"}, 3) : h[1] = "a"} \cup {<<"b">>}
+Headings == {h \in SeqsUpTo({"a", "1"}, 3) : h[1] = "a"} \cup {<<"b">>, <<"j">>, <<"j", "a">>}
 Docs == SeqsUpTo(Headings, MaxSections)
 
 Take(t, n) == IF n = 0 \/ Len(t) <= n THEN t ELSE SubSeq(t, 1, n)
-Slugify(t) == Take(t, Cap)                                  \* epytext.py:162-176 (environment)
-Candidate(t, n) == Slugify(t \o <<ToString(n)>>)             \* slugify(f"{text}-{i}")
+Ascii(t) == SelectSeq(t, LAMBDA w : w # "j")                 \* .encode('ascii', 'ignore') + [^\w\s-] removed
+Slugify(t) == Take(Ascii(t), Cap)                            \* epytext.py:162-176 (environment)
+\* slugify(f"{text}-{i}"): the dash joins the number to the last word, or stands alone in front of it
+Candidate(t, n) == IF Ascii(t) = <<>> THEN Take(<<"-" \o ToString(n)>>, Cap) ELSE Slugify(t \o <<ToString(n)>>)
 
 VARIABLES doc, k, pc, s, i, slugs, ids, iters
 vars == <<doc, k, pc, s, i, slugs, ids, iters>>
